@@ -14,6 +14,7 @@ from harness import grammar, tlc
 KEYWORDS = ['not', 'and', 'or', 'implies', 'iff', 'in', 'forall', 'exists', 'to']
 BOOLEANS = ['True', 'False']
 CONSTANTS = ['PI', 'INF', 'NAN', 'E']
+PROP_KEYWORDS = ['globally', 'after', 'until', 'no', 'some', 'causes', 'requires', 'forbids', 'within', 'as', 'or']
 
 
 def tla_string(c):
@@ -25,7 +26,7 @@ def gen_module(sigma):
     return ('---- MODULE MC_LexGen ----\nEXTENDS MC_Lex\nGenSigma == {%s}\n====\n' % ', '.join(tla_string(c) for c in sorted(sigma)))
 
 
-def make_cfg(sigma, maxlen, pieces=None, maxpieces=0, given=False):
+def make_cfg(sigma, maxlen, pieces=None, maxpieces=0, given=False, prop=False):
     L = ['SPECIFICATION Spec', 'CHECK_DEADLOCK FALSE',
          'CONSTANT Sigma <- GenSigma',
          'CONSTANT MaxLen = %d' % maxlen,
@@ -35,13 +36,18 @@ def make_cfg(sigma, maxlen, pieces=None, maxpieces=0, given=False):
          'CONSTANT Keywords = %s' % grammar._val(KEYWORDS),
          'CONSTANT Booleans = %s' % grammar._val(BOOLEANS),
          'CONSTANT Constants = %s' % grammar._val(CONSTANTS),
+         'CONSTANT PropMode = %s' % ('TRUE' if prop else 'FALSE'),
+         'CONSTANT PropKeywords = %s' % grammar._val(PROP_KEYWORDS),
          'INVARIANT TypeOK', 'INVARIANT Covering', 'INVARIANT MaximalWords', 'INVARIANT EmitLex']
     return '\n'.join(L) + '\n'
 
 
-def enumerate_texts(sigma, maxlen, pieces=None, maxpieces=0, cache=True, timeout=3600):
-    """{text: {'greedy': toks or None, 'others': [toks...], 'adj': bool}}, tlc stats"""
-    cfg = make_cfg(sigma, maxlen, pieces, maxpieces)
+def enumerate_texts(sigma, maxlen, pieces=None, maxpieces=0, cache=True, timeout=3600, given=None, prop=False):
+    """{text: {'greedy': toks or None, 'others': [toks...], 'adj': bool}}, tlc stats.
+    given: explicit list of input texts (then sigma/maxlen are ignored); prop: the texts are properties."""
+    if given is not None:
+        return _lex_given(sorted(set(given)), prop, timeout)
+    cfg = make_cfg(sigma, maxlen, pieces, maxpieces, prop=prop)
     gen = gen_module(sigma)
     h = hashlib.sha256()
     for f in ('HplLex.tla', 'MC_Lex.tla'):
@@ -57,6 +63,43 @@ def enumerate_texts(sigma, maxlen, pieces=None, maxpieces=0, cache=True, timeout
             d = json.load(f)
         return d['texts'], d['res']
     res = tlc.run_model('MC_LexGen', cfg_text=cfg, workers=1, timeout=timeout, extra_files={'MC_LexGen.tla': gen})
+    texts = _collect(res)
+    r = dict(generated=res['generated'], distinct=res['distinct'], wall=res['wall'])
+    if cache:
+        with open(cpath, 'w') as f:
+            json.dump({'texts': texts, 'res': r}, f)
+        grammar._prune_cache(cdir)
+    return texts, r
+
+
+def _lex_given(given, prop, timeout, chunk=6000):
+    """The lexer machine on explicit texts (never cached: the texts come from the run).  Sharded over JVMs."""
+    from concurrent.futures import ThreadPoolExecutor
+    os.makedirs(tlc.BUILD, exist_ok=True)
+    cfg = make_cfg([' '], 0, given=True, prop=prop)
+    gen = gen_module([' '])
+    parts = [given[i:i + chunk] for i in range(0, len(given), chunk)]
+    texts, tot = {}, dict(generated=0, distinct=0, wall=0.0)
+
+    def one(idx):
+        path = os.path.join(tlc.BUILD, 'lexin_%d_%d.json' % (os.getpid(), idx))
+        with open(path, 'w') as f:
+            json.dump([list(t) for t in parts[idx]], f)
+        try:
+            return tlc.run_model('MC_LexGen', cfg_text=cfg, workers=1, timeout=timeout, extra_files={'MC_LexGen.tla': gen},
+                                 env={'LEX_INPUTS': path}, heap='3g')
+        finally:
+            os.unlink(path)
+    with ThreadPoolExecutor(max_workers=tlc.NCPU) as ex:
+        for res in ex.map(one, range(len(parts))):
+            texts.update(_collect(res))
+            tot['generated'] += res['generated']
+            tot['distinct'] += res['distinct']
+            tot['wall'] = max(tot['wall'], res['wall'])
+    return texts, tot
+
+
+def _collect(res):
     if not res['ok']:
         raise tlc.MachineryError('lexer machine failed (a model-level theorem of HplLex is violated or TLC crashed):\n' + res['out'][-3000:])
     texts = {}
@@ -76,12 +119,7 @@ def enumerate_texts(sigma, maxlen, pieces=None, maxpieces=0, cache=True, timeout
         else:
             if toks not in e['others']:
                 e['others'].append(toks)
-    r = dict(generated=res['generated'], distinct=res['distinct'], wall=res['wall'])
-    if cache:
-        with open(cpath, 'w') as f:
-            json.dump({'texts': texts, 'res': r}, f)
-        grammar._prune_cache(cdir)
-    return texts, r
+    return texts
 
 
 def abstract(toks):
